@@ -114,6 +114,9 @@ func (r *reent) Process(ctx context.Context, e *eventlogger.Event) (*eventlogger
 			r.sense()
 			r.b.RegisterNode("registered-from-process", &sink{})
 			r.b.SetSuccessThreshold("inner", 0)
+			// ... also pipelines of the very event type that is being processed (a one-shot pipeline that retires itself)
+			r.b.RegisterPipeline(eventlogger.Pipeline{PipelineID: "from-process", EventType: "outer", NodeIDs: []eventlogger.NodeID{"fmt", "registered-from-process"}})
+			r.b.RemovePipeline("outer", "from-process")
 			r.b.RemoveNode(ctx, "registered-from-process")
 			r.depth.Add(-1)
 		}
@@ -195,10 +198,11 @@ func Run(sc Scenario) Result {
 	mustNil(b.RegisterNode("out2", &sink{}))
 	mustNil(b.RegisterPipeline(eventlogger.Pipeline{PipelineID: "outer", EventType: "outer", NodeIDs: []eventlogger.NodeID{"gf", "rn", "fmt", "out"}}))
 	mustNil(b.RegisterPipeline(eventlogger.Pipeline{PipelineID: "inner", EventType: "inner", NodeIDs: []eventlogger.NodeID{"fmt2", "out2"}}))
-	ctx := context.Background()
-	for i := 0; i < sc.Pending; i++ {
-		b.Send(ctx, "outer", &gpay{Payload: gated.Payload{ID: fmt.Sprintf("g%d", i)}, g: gt, comp: sc.Compose})
+	if sc.Cb == "process-write" {
+		// the re-entering node is also the first node of a pipeline of its own: it runs where Send walks the pipelines
+		mustNil(b.RegisterPipeline(eventlogger.Pipeline{PipelineID: "rootp", EventType: "outer", NodeIDs: []eventlogger.NodeID{"rn", "fmt", "out"}}))
 	}
+	ctx := context.Background()
 	done := make(chan error, 1)
 	go func() {
 		var err error
@@ -208,6 +212,10 @@ func Run(sc Scenario) Result {
 			}
 			done <- err
 		}()
+		// (the Sends that leave groups pending are Broker calls like any other: under the watchdog)
+		for i := 0; i < sc.Pending; i++ {
+			b.Send(ctx, "outer", &gpay{Payload: gated.Payload{ID: fmt.Sprintf("g%d", i)}, g: gt, comp: sc.Compose})
+		}
 		switch sc.Op {
 		case "rpan":
 			_, err = b.RemovePipelineAndNodes(ctx, "outer", "outer")
